@@ -9,6 +9,7 @@ ID = "C02"
 TITLE = "One linear order is shared by polygons, centres, flattened data and selectors"
 MC = {"quick": [("MC_Cells", "MC_C02.cfg", 8)], "thorough": [("MC_Cells", "MC_C02_thorough.cfg", 16)]}
 TRACE = ("Trace_Cells", "Trace_Cells.cfg")
+REPEAT_EVENTS = 6      # see core.check
 THOROUGH_EXTRA_SEEDS = 2
 REQUIRED = ["held-memory", "held-file", "held-dask", "held-emsopen", "Polygons", "Centres", "Ravel", "SelectIndex", "Query", "SpatialIndex", "holes", "hit", "tie",
             "cf1d", "cf2d", "shoc_simple", "shoc_standard", "arakawa", "ugrid",
